@@ -375,7 +375,7 @@ func c15BlobFaults(tier string) *vlib.Result {
 func C15Plan() *vlib.Plan {
 	p := &vlib.Plan{
 		Property: "C15", Level: "model_checking",
-		Rule: "E-BFS: all histories of length <= D over 10 operations (1/5000-byte message each way, begin/finish partial send, begin/finish partial receive, hand-off of A, hand-off of B) replayed on two fresh real streams keyed after a cleartext preamble; in every state ExportCryptoState is attempted on both ends and must succeed only if the reference model says established+clean; every frame on the wire is opened by the reference decryptor (nonce continuity across hand-offs, no reuse); each history ends with four further messages. Blob faults: every truncation, magic and version variants must be rejected. Non-trivial = history in which an export was attempted after at least one protected frame.",
+		Rule:   "E-BFS: all histories of length <= D over 10 operations (1/5000-byte message each way, begin/finish partial send, begin/finish partial receive, hand-off of A, hand-off of B) replayed on two fresh real streams keyed after a cleartext preamble; in every state ExportCryptoState is attempted on both ends and must succeed only if the reference model says established+clean; every frame on the wire is opened by the reference decryptor (nonce continuity across hand-offs, no reuse); each history ends with four further messages. Blob faults: every truncation, magic and version variants must be rejected. Non-trivial = history in which an export was attempted after at least one protected frame.",
 		Assume: []string{"a conservative refusal (e.g. after EndMessage until StartMessage) is recorded, not flagged; single-byte corruption of key/IV/counter bytes is outside the statement (counted)"},
 	}
 	p.Gen = func(tier string, yield func(vlib.Case)) {
